@@ -689,6 +689,14 @@ func specErrWellFormed(err error) bool {
 	return true
 }
 
+// vmLoopInv: the invariant of the interpreter loop: vmPanicPoint, the current
+// frame is the top one (frames[frameIndex-1]) and has its function, there is
+// room for the frame index to grow, and the stack pointer is not negative.
+func vmLoopInv(vm *VM) bool {
+	return vmPanicPoint(vm) && vm.frameIndex <= frameSize-1 &&
+		vm.curFrame == &vm.frames[vm.frameIndex-1] && vm.curFrame.fn != nil && vm.sp >= 0
+}
+
 // vmThrowOK: vmPanicPoint plus the limits handlePanic checks before it
 // re-enters the throw path.
 func vmThrowOK(vm *VM) bool {
